@@ -1630,10 +1630,17 @@ Plan generate(const std::string& mode, uint64_t seed, uint64_t run) {
       bool exact = r.chance(1, 3);
       if (exact)
         n = size_t(L) + 1;
-      unsigned shape = unsigned(r.below(4));
+      unsigned shape = unsigned(r.below(mp ? 6 : 4));
+      bool keyPosition = mp && shape >= 4;  // maps nested in *key* position: not a string key, so never accepted
+      if (shape == 5)
+        b += char(0x91);
       for (size_t j = 0; j < n; j++) {
         if (mp) {
           switch (shape) {
+            case 4:
+            case 5:
+              b += char(0x81);
+              break;
             case 0:
               b += char(0x91);
               break;
@@ -1664,7 +1671,7 @@ Plan generate(const std::string& mode, uint64_t seed, uint64_t run) {
       }
       if (exact && !mp && r.chance(1, 2))
         b += r.chance(1, 2) ? " " : "\n\t ";
-      op.set("expect", "TooDeep").set("cls", "C15:too-deep-iff").setq("why", std::to_string(n) + " unclosed openers");
+      op.set("expect", keyPosition ? "notok" : "TooDeep").set("cls", "C15:too-deep-iff").setq("why", std::to_string(n) + " unclosed openers");
     }
     op.setq("b", b);
     if (r.chance(1, 2)) {
